@@ -49,6 +49,15 @@ func c06Init() {
 		// payload: the points as sent (canonical strings), compared with the final op's batch
 		body := "?"
 		if pts, e := data.PbDecodePoints(m.Data); e == nil {
+			// once a minute the store reports its own metrics as points of the root node (store.StartMetrics): writes of the
+			// instance itself, correctly rebroadcast, but not part of any case
+			own := len(pts) > 0
+			for _, p := range pts {
+				own = own && strings.HasPrefix(p.Type, "metricNats")
+			}
+			if own {
+				return
+			}
 			var ss []string
 			for _, p := range pts {
 				ss = append(ss, ptStr(p))
